@@ -350,6 +350,20 @@ theorem dropCore_inv (rule : Rule) (dt0 : T) (q0 : Int) (n : Nat) (dense : Array
     simp only [List.append_nil]
     rw [← Array.length_toList, List.take_length]
 
+/-- with distinct rows every value is read as it was on entry -/
+theorem visits_nodup (z : K) (rows : List Nat) : ∀ d : Array K, rows.Nodup → visits z d rows = rows.map fun t => (t, d[t]!) := by
+  induction rows with
+  | nil => intro d _; rfl
+  | cons r rs ih =>
+    intro d hnd
+    have hr : r ∉ rs := (List.nodup_cons.mp hnd).1
+    simp only [visits, List.map_cons]
+    rw [ih _ (List.nodup_cons.mp hnd).2]
+    congr 1
+    apply List.map_congr_left
+    intro t ht
+    rw [get!_set, if_neg (by rintro ⟨h, -⟩; exact hr (h ▸ ht))]
+
 variable (inp : UIn K R T)
 
 /-- the rows the U-segments of the call list, in the order of the routine -/
